@@ -954,6 +954,8 @@ def rb(spec, v, sc):
             out += data
             rets.append(ret)
         return bytes(out), rets
+    if k in ("grange", "runtil", "parray") and not isinstance(v, (list, tuple)):
+        raise ForeignError("repetition built from a non-list")
     if k == "grange":
         out = bytearray()
         rets = []
